@@ -39,7 +39,7 @@ func Printf(ctx *runtime.Task, funcExpr *ast.CallExpr) *errchain.PlError {
 	}
 
 	for i := 1; i < len(funcExpr.Param); i++ {
-		if v, _, err := runtime.RunStmt(ctx, funcExpr.Param[i]); err != nil {
+		if v, _, err := runArg(ctx, funcExpr.Param[i]); err != nil {
 			return err
 		} else {
 			outdata = append(outdata, v)
@@ -57,7 +57,7 @@ func getArgStr(ctx *runtime.Task, node *ast.Node) string {
 		return ""
 	}
 
-	if v, dtype, err := runtime.RunStmt(ctx, node); err == nil {
+	if v, dtype, err := runArg(ctx, node); err == nil {
 		if dtype == ast.String {
 			return cast.ToString(v)
 		}
